@@ -109,6 +109,39 @@ def descendants(root=None):
     return out
 
 
+def group_members(pgid=None):
+    """pids (other than this process) whose process group is `pgid` (default: ours) - finds orphans that were
+    re-parented to init after their parent was killed, which `descendants()` cannot see any more"""
+    pgid = pgid or os.getpgrp()
+    me = os.getpid()
+    out = []
+    for d in os.listdir("/proc"):
+        if not d.isdigit() or int(d) == me:
+            continue
+        try:
+            with open(f"/proc/{d}/stat") as f:
+                rest = f.read().rsplit(")", 1)[1].split()
+            if int(rest[2]) == pgid:
+                out.append(int(d))
+        except (OSError, IndexError, ValueError):
+            continue
+    return out
+
+
+def kill_leftovers():
+    """SIGKILL every descendant and every other member of our process group; -> number of processes killed"""
+    import signal
+
+    n = 0
+    for pid in set(descendants()) | set(group_members()):
+        try:
+            os.kill(pid, signal.SIGKILL)
+            n += 1
+        except OSError:
+            pass
+    return n
+
+
 def proc_state(pid):
     """'R','S','D','Z','T',... or None when the process does not exist"""
     try:
@@ -135,7 +168,7 @@ class Watchdog:
         import signal
 
         self.fired = True
-        for pid in descendants() + self.extra:
+        for pid in list(set(descendants()) | set(group_members())) + self.extra:
             try:
                 os.kill(pid, signal.SIGKILL)
             except OSError:
